@@ -8,6 +8,8 @@ CLAIMS = {
          'Trusted: TLC, the table dumper harness/c06_channel.cpp (public API only), shifted-unsigned logging. 32-bit and float models are stratified, not exhaustive; float tolerance 2^-22 of range.', '4 C06'),
  'C07': ('channel_multiply / channel_invert: TLC scans all operand pairs of the implementation-shaped multiplier for widths up to 8 (quick) / 10 (thorough) bits against the property layer, and tables recorded from the real functions (all pairs for <=8-bit models, structured+seeded operands for 9..16 bits, dyadic floats, complete invert tables) are validated by TLC.',
          'The 2^32 pair space of 16-bit multiply is sampled, not enumerated (stated in evidence). Within-one-unit is read inclusively.', '4 C07'),
+ 'C08': ('Packed / bit-aligned writes: TLC explores the implementation-shaped bit-cursor machine (every ++/--/advance sequence tracks the ideal bit position; n then -n is the identity; distance = pixels moved) and the channel read-modify-write machine over every content of a 12-bit (quick) / 16-bit (thorough) field, and every recorded operation of the real packed_pixel / bit_aligned_pixel_reference / bit_aligned_pixel_iterator (full before/after byte images, buffers flush against inaccessible pages) is validated by TLC against the "exactly these bits" layer of specs/PackedBits.tla.',
+         'Little-endian host. Faults are observed through guard pages, ASan and UBSan; configurations are an explicit list (20 bit-aligned, 8 packed). One open known finding (packed_pixel value copy overwrites unused bits).', '4 C08'),
 }
 NA_REASON = {}
 HOOK_COMMITS = []
